@@ -20,17 +20,6 @@ def assertErr : Json := Json.mkObj [("err", str "other:AssertionError")]
 
 def bitsOf (x : Float) : Json := nat x.toBits.toNat
 
-def jaccardF (t : Nat × Nat × Nat × Nat) : Float :=
-  let (a, b, c, _) := t
-  Float.ofNat a / Float.ofNat (a + b + c)
-
-def forbesF (t : Nat × Nat × Nat × Nat) : Float :=
-  let (a, b, c, d) := t
-  Float.ofNat (a * (a + b + c + d)) / Float.ofNat ((a + b) * (a + c))
-
-def add4 (x y : Nat × Nat × Nat × Nat) : Nat × Nat × Nat × Nat :=
-  (x.1 + y.1, x.2.1 + y.2.1, x.2.2.1 + y.2.2.1, x.2.2.2 + y.2.2.2)
-
 def t4J (t : Nat × Nat × Nat × Nat) : Json := natList [t.1, t.2.1, t.2.2.1, t.2.2.2]
 
 def handle (op : String) (j : Json) : Except String Json := do
@@ -91,17 +80,15 @@ def handle (op : String) (j : Json) : Except String Json := do
     pure (reply (Json.mkObj [("t", t4J (contingency A B size))]) (some (Json.mkObj [("t", t4J (specContingency A B size))])))
   | "jaccard" | "forbes" | "geo_jaccard" =>
     let chroms ← getArr j "chroms"
-    let parts ← chroms.mapM (fun c => do
+    let cs : List Contig2 ← chroms.mapM (fun c => do
       let A ← getIvs c "a"
       let B ← getIvs c "b"
       let size ← getNat c "size"
-      pure (contingency A B size, specContingency A B size))
-    let tm := parts.foldl (fun acc p => add4 acc p.1) (0, 0, 0, 0)
-    let ts := parts.foldl (fun acc p => add4 acc p.2) (0, 0, 0, 0)
-    let f := if op == "forbes" then forbesF else jaccardF
+      pure (size, A, B))
     -- (before fix 5241510 `jaccard`/`forbes` raised ValueError in `groupby` for an operand with no entries)
-    let m := Json.mkObj [("bits", bitsOf (f tm))]
-    pure (reply m (some (Json.mkObj [("bits", bitsOf (f ts))])))
+    let m := Json.mkObj [("bits", bitsOf (if op == "forbes" then forbes cs else jaccard cs))]
+    let ts := if op == "forbes" then specForbes cs else specJaccard cs
+    pure (reply m (some (Json.mkObj [("bits", bitsOf ts)])))
   | "clip" =>
     let st ← getIntList j "start"
     let sp ← getIntList j "stop"
